@@ -457,19 +457,23 @@ Case vf_generate() {
     c.toks.push_back(t);
   }
   if (vf::known("ellipsis-lookbehind")) {
-    // the same finding through the printer, by accident: five independently generated numbers that happen to count
-    // up or down are printed as 'b ... c' as well (thorough tier, 1 in ~5e6 texts); the fifth one is replaced
-    int len = 0;
-    for (size_t i = 0; i < c.toks.size(); i++) {
-      const Tok &t = c.toks[i];
-      bool single = t.vals.size() == 1 && !t.range && t.kind != "plain.run" && (t.first == 'i' || t.first == 'h' || t.first == 'c');
-      if (!single) { len = 0; continue; }
-      if (len >= 1 && c.toks[i - 1].first != t.first) len = 0;
-      if (len >= 2 && t.vals[0].i - c.toks[i - 1].vals[0].i != c.toks[i - 1].vals[0].i - c.toks[i - 2].vals[0].i) len = 1;
-      if (len == 1 && t.vals[0].i == c.toks[i - 1].vals[0].i) len = 0;
-      len++;
-      if (len >= 5) { c.toks[i] = one("nil", mk('N'), "N"); len = 0; vf::G().ctx.count("excluded.ellipsis-lookbehind"); }
+    // the same finding through the printer: five or more numbers of one type in a row (single numbers and written-out runs
+    // mixed, e.g. "7h" + "6h 5h 4h 3h") may be printed as 'b ... c'; such a chain is kept away from any neighbour whose
+    // printed form has an ellipsis by putting a 'nil' in between
+    auto chainable = [](const Tok &t) { return !t.range && (t.kind == "plain.run" || t.vals.size() == 1) && (t.first == 'i' || t.first == 'h' || t.first == 'c') && t.last == t.first; };
+    auto dots = [](const Tok &k) { if (k.range || k.kind.rfind("array", 0) == 0 || k.kind.rfind("repeat", 0) == 0) return true; for (auto &p : k.parts) if (p.find("...") != std::string::npos) return true; return false; };
+    std::vector<Tok> out;
+    for (size_t i = 0; i < c.toks.size();) {
+      if (!chainable(c.toks[i])) { out.push_back(c.toks[i]); i++; continue; }
+      size_t j = i, nvals = 0;
+      while (j < c.toks.size() && chainable(c.toks[j]) && c.toks[j].first == c.toks[i].first) { nvals += c.toks[j].vals.size(); j++; }
+      bool before = !out.empty() && dots(out.back()), after = j < c.toks.size() && dots(c.toks[j]);
+      if (nvals >= 5 && before) { out.push_back(one("nil", mk('N'), "N")); vf::G().ctx.count("excluded.ellipsis-lookbehind"); }
+      for (size_t k = i; k < j; k++) out.push_back(c.toks[k]);
+      if (nvals >= 5 && after) { out.push_back(one("nil", mk('N'), "N")); vf::G().ctx.count("excluded.ellipsis-lookbehind"); }
+      i = j;
     }
+    c.toks = out;
   }
   for (size_t i = 0; i < c.toks.size(); i++) {
     bool last = i + 1 == c.toks.size();
